@@ -2,6 +2,7 @@
 import struct
 import socket as _socket
 
+import re
 import gevent
 from gevent.event import AsyncResult
 from gevent.server import StreamServer
@@ -18,7 +19,10 @@ from slimta.relay import TransientRelayError, PermanentRelayError
 
 HTTP_STATUS = [(200, 'OK'), (204, 'No Content'), (301, 'Moved'), (400, 'Bad Request'), (404, 'Not Found'), (500, 'Server Error'),
                (503, 'Unavailable'), (302, 'Found'), (502, 'Bad Gateway'), (420, 'Enhance Your Calm')]
-HTTP_HEADERS = ['none', '250; message="2.6.0 accepted"', '450; message="4.2.0 later"', '550; message="5.1.1 no such user"', 'garbage']
+HTTP_HEADERS = ['none', '250; message="2.6.0 accepted"', '450; message="4.2.0 later"', '550; message="5.1.1 no such user"', 'garbage',
+                # the form WsgiEdge emits for a reply that carries the command it answered
+                '550; message="5.1.1 no such user"; command="RCPT"', '450; command="DATA"; message="4.3.0 busy"',
+                '250; message="2.6.0 accepted"; command="[SEND_DATA]"', '550; message="5.7.1 said \\"no\\""', '550']
 HTTP_FAULTS = ['none', 'disconnect-before-response', 'reset', 'partial-response']
 
 
@@ -116,9 +120,9 @@ def run_http_case(case):
             want = None
             if fault != 'none':
                 want = 'temp'
-            elif case.get('header', 'none').startswith('4'):
+            elif re.match(r'^\s*4\d\d\s*;', case.get('header', 'none')):      # documented form: code; message="..."
                 want = 'temp'
-            elif case.get('header', 'none').startswith('5'):
+            elif re.match(r'^\s*5\d\d\s*;', case.get('header', 'none')):
                 want = 'perm'
             if want and v != want:
                 out.append(('C11:wrong-failure-class:http', '%s: reported %s, expected %s' % (desc, v, want)))
